@@ -171,11 +171,18 @@ mod verif_search {
     }
 
     fn loc(r: &mut Rng, spread: bool) -> GeographicLocation {
-        // a coarse grid (far apart) or a cluster (a few km apart)
+        // a coarse grid (far apart) or a cluster (a few km apart); clusters sit at mid latitudes, at high latitudes
+        // (where a degree of longitude is short), next to a pole, or across the +/-180 meridian
         if spread {
             GeographicLocation { latitude: -60.0 + 10.0 * r.below(13) as f64, longitude: -170.0 + 20.0 * r.below(17) as f64 }
         } else {
-            GeographicLocation { latitude: 48.0 + 0.1 * r.below(12) as f64, longitude: 11.0 + 0.1 * r.below(12) as f64 }
+            match r.below(5) {
+                0 => GeographicLocation { latitude: 48.0 + 0.1 * r.below(12) as f64, longitude: 11.0 + 0.1 * r.below(12) as f64 },
+                1 => GeographicLocation { latitude: 70.0 + 0.05 * r.below(8) as f64, longitude: 20.0 + 0.4 * r.below(8) as f64 },
+                2 => GeographicLocation { latitude: -17.0 + 0.05 * r.below(4) as f64, longitude: if r.below(2) == 0 { 179.9 - 0.05 * r.below(3) as f64 } else { -179.9 + 0.05 * r.below(3) as f64 } },
+                3 => GeographicLocation { latitude: 89.8 + 0.05 * r.below(4) as f64, longitude: -180.0 + 45.0 * r.below(8) as f64 },
+                _ => GeographicLocation { latitude: -78.2 + 0.02 * r.below(5) as f64, longitude: 15.0 + 0.5 * r.below(6) as f64 },
+            }
         }
     }
 
